@@ -5,6 +5,7 @@ import (
 	"math"
 	"reflect"
 	"regexp"
+	"strconv"
 	"strings"
 
 	"verif/mc/gen"
@@ -18,6 +19,7 @@ type Result struct {
 	Why    string
 	Alloc  int // number of collection elements created (arrays, maps, ranges, map/filter results)
 	Log    string
+	FailPath string // path ("." + child indices) of the node whose operation failed
 }
 
 type fail struct{ why string }
@@ -26,6 +28,15 @@ type evaluator struct {
 	env   reflect.Value // *henv.Env
 	hash  []interface{}
 	alloc int
+	path  []int // child indices from the root to the node being evaluated
+}
+
+// kid evaluates child i of e, tracking the path.
+func (ev *evaluator) kid(e *gen.Expr, i int) interface{} {
+	ev.path = append(ev.path, i)
+	v := ev.eval(e.Kids[i])
+	ev.path = ev.path[:len(ev.path)-1]
+	return v
 }
 
 // Eval evaluates e in env (whose log receives the calls made).
@@ -37,6 +48,9 @@ func Eval(e *gen.Expr, env *henv.Env) (res Result) {
 		if r := recover(); r != nil {
 			if f, ok := r.(fail); ok {
 				res.Failed, res.Why, res.Val = true, f.why, nil
+				for _, i := range ev.path {
+					res.FailPath += "." + strconv.Itoa(i)
+				}
 				return
 			}
 			panic(r)
@@ -147,8 +161,8 @@ func toStr(v interface{}) string {
 
 func (ev *evaluator) evalKids(e *gen.Expr, from int) []interface{} {
 	out := make([]interface{}, 0, len(e.Kids))
-	for _, k := range e.Kids[from:] {
-		out = append(out, ev.eval(k))
+	for i := from; i < len(e.Kids); i++ {
+		out = append(out, ev.kid(e, i))
 	}
 	return out
 }
@@ -239,7 +253,7 @@ func (ev *evaluator) eval(e *gen.Expr) interface{} {
 	case "var":
 		return ev.member(r.Arg)
 	case "un":
-		v := ev.eval(e.Kids[0])
+		v := ev.kid(e, 0)
 		switch r.Arg {
 		case "not", "!":
 			return !toBool(v)
@@ -261,10 +275,10 @@ func (ev *evaluator) eval(e *gen.Expr) interface{} {
 	case "bin":
 		return ev.bin(e)
 	case "cond":
-		if toBool(ev.eval(e.Kids[0])) {
-			return ev.eval(e.Kids[1])
+		if toBool(ev.kid(e, 0)) {
+			return ev.kid(e, 1)
 		}
-		return ev.eval(e.Kids[2])
+		return ev.kid(e, 2)
 	case "call":
 		args := ev.evalKids(e, 0)
 		fn := ev.env.Elem().Addr().MethodByName(r.Arg)
@@ -273,7 +287,7 @@ func (ev *evaluator) eval(e *gen.Expr) interface{} {
 		}
 		return ev.call(fn, r.Arg, args, e.Kids)
 	case "method", "method?":
-		recv := ev.eval(e.Kids[0])
+		recv := ev.kid(e, 0)
 		args := ev.evalKids(e, 1)
 		if isNilV(recv) && recv == nil {
 			if chainNilSafe(e) {
@@ -284,15 +298,15 @@ func (ev *evaluator) eval(e *gen.Expr) interface{} {
 		fn := reflect.ValueOf(recv).MethodByName(r.Arg)
 		return ev.call(fn, r.Arg, args, e.Kids[1:])
 	case "prop", "prop?":
-		recv := ev.eval(e.Kids[0])
+		recv := ev.kid(e, 0)
 		return ev.prop(recv, r.Arg, chainNilSafe(e))
 	case "hashprop":
 		return ev.prop(ev.top(), r.Arg, false)
 	case "hash":
 		return ev.top()
 	case "index":
-		recv := ev.eval(e.Kids[0])
-		idx := ev.eval(e.Kids[1])
+		recv := ev.kid(e, 0)
+		idx := ev.kid(e, 1)
 		rv := reflect.ValueOf(recv)
 		switch rv.Kind() {
 		case reflect.Slice, reflect.Array:
@@ -313,16 +327,16 @@ func (ev *evaluator) eval(e *gen.Expr) interface{} {
 		}
 		failf("cannot index %T", recv)
 	case "slice":
-		recv := ev.eval(e.Kids[0])
+		recv := ev.kid(e, 0)
 		var fromV, toV interface{}
 		switch r.Arg {
 		case "ft":
-			fromV = ev.eval(e.Kids[1])
-			toV = ev.eval(e.Kids[2])
+			fromV = ev.kid(e, 1)
+			toV = ev.kid(e, 2)
 		case "f":
-			fromV = ev.eval(e.Kids[1])
+			fromV = ev.kid(e, 1)
 		case "t":
-			toV = ev.eval(e.Kids[1])
+			toV = ev.kid(e, 1)
 		}
 		rv := reflect.ValueOf(recv)
 		if k := rv.Kind(); k != reflect.Slice && k != reflect.Array && k != reflect.String {
@@ -347,7 +361,7 @@ func (ev *evaluator) eval(e *gen.Expr) interface{} {
 		}
 		return rv.Slice(from, to).Interface()
 	case "len":
-		v := ev.eval(e.Kids[0])
+		v := ev.kid(e, 0)
 		rv := reflect.ValueOf(v)
 		switch rv.Kind() {
 		case reflect.Slice, reflect.Array, reflect.Map, reflect.String:
@@ -356,16 +370,16 @@ func (ev *evaluator) eval(e *gen.Expr) interface{} {
 		failf("len of %T", v)
 	case "arr":
 		out := make([]interface{}, len(e.Kids))
-		for i, k := range e.Kids {
-			out[i] = ev.eval(k)
+		for i := range e.Kids {
+			out[i] = ev.kid(e, i)
 		}
 		ev.alloc += len(out)
 		return out
 	case "map":
 		keys := strings.Split(r.Arg, ",")
 		out := map[string]interface{}{}
-		for i, k := range e.Kids {
-			out[keys[i]] = ev.eval(k)
+		for i := range e.Kids {
+			out[keys[i]] = ev.kid(e, i)
 		}
 		ev.alloc += len(e.Kids)
 		return out
@@ -412,7 +426,7 @@ func (ev *evaluator) prop(recv interface{}, name string, nilsafe bool) interface
 }
 
 func (ev *evaluator) builtin(e *gen.Expr) interface{} {
-	arr := ev.eval(e.Kids[0])
+	arr := ev.kid(e, 0)
 	rv := reflect.ValueOf(arr)
 	if k := rv.Kind(); k != reflect.Slice && k != reflect.Array {
 		failf("builtin over %T", arr)
@@ -421,7 +435,7 @@ func (ev *evaluator) builtin(e *gen.Expr) interface{} {
 	body := func(i int) interface{} {
 		ev.hash = append(ev.hash, rv.Index(i).Interface())
 		defer func() { ev.hash = ev.hash[:len(ev.hash)-1] }()
-		return ev.eval(e.Kids[1])
+		return ev.kid(e, 1)
 	}
 	switch e.R.Arg {
 	case "all":
@@ -480,18 +494,18 @@ func (ev *evaluator) bin(e *gen.Expr) interface{} {
 	o := e.R.Arg
 	switch o {
 	case "and", "&&":
-		if !toBool(ev.eval(e.Kids[0])) {
+		if !toBool(ev.kid(e, 0)) {
 			return false
 		}
-		return toBool(ev.eval(e.Kids[1]))
+		return toBool(ev.kid(e, 1))
 	case "or", "||":
-		if toBool(ev.eval(e.Kids[0])) {
+		if toBool(ev.kid(e, 0)) {
 			return true
 		}
-		return toBool(ev.eval(e.Kids[1]))
+		return toBool(ev.kid(e, 1))
 	}
-	a := ev.eval(e.Kids[0])
-	b := ev.eval(e.Kids[1])
+	a := ev.kid(e, 0)
+	b := ev.kid(e, 1)
 	switch o {
 	case "==":
 		return Equal(a, b)
